@@ -221,7 +221,8 @@ def run_notes(ch):
         img.add(eg.Sec('.lead', 1, data=b'\x5a' * lead, file_align=4))
     nsec = img.add(eg.Sec('.note.probe', 7, data=blob, flags=2, addr=0x400200, align=4, file_align=4))
     img.add_shstrtab()
-    img.seg(eg.Seg(4, flags=4, of=nsec, align=4))
+    # the 4-byte padding rule does not depend on what the program header says about alignment
+    img.seg(eg.Seg(4, flags=4, of=nsec, align=ch.pick('pt_note.p_align', [4, 8, 0, 1, 16])))
     data = img.encode()
 
     from elftools.elf.elffile import ELFFile
